@@ -1,7 +1,8 @@
 ---- MODULE MCHostLease ----
-(* default exhaustive configuration of HostLease.tla: two hosts, two waiters - the shape that needs notify_all *)
+(* default exhaustive configuration of HostLease.tla: two hosts, waiters for both parked on the one condition variable - the shape that needs notify_all *)
 EXTENDS HostLease
 A(h) == [op |-> "acq", h |-> h]
 R == [op |-> "rel"]
-MCProg == ("a" :> <<A("A"), R>> @@ "b" :> <<A("B"), R>> @@ "c" :> <<A("A"), R>> @@ "d" :> <<A("B"), R, [op |-> "cleanup"], A("A")>>)
+MCProg == ("a" :> <<A("A"), R>> @@ "b" :> <<A("B"), A("A"), R, R>> @@ "c" :> <<A("B"), R>>)
+MCProg2 == ("a" :> <<A("A"), R>> @@ "b" :> <<A("A"), R>> @@ "c" :> <<A("B"), [op |-> "cleanup"], R, A("A")>>)
 ====
